@@ -49,22 +49,29 @@ def oracle_c02(cid, impl, m):
     return True
 
 
-def oracle_c03(cid, impl, m):
-    """With the k-th storage call failing: error, or the fault-free answer; never
-    allowed when the fault-free answer is denied; an answer with an error is never allowed."""
-    if "res" not in m or "res0" not in m:
-        return None
-    res = impl.get("res", "")
+def _c03_one(res, m):
     memb, _, err = res.partition("/")
     if err != "none" and memb == "isMember":
         return ("c03-allowed-with-error", f"answer {res} carries an error and says allowed")
-    if err == "none":
-        if res != m["res0"] and not (m["res0"].endswith("/none") is False):
-            # fault-free run had no error: the answer must be the same
-            if m["res0"].endswith("/none"):
-                if _allowed(res) and not _allowed(m["res0"]):
-                    return ("c03-fail-open", f"storage fault turned {m['res0']} into {res}")
-                return ("c03-changed", f"storage fault changed the answer from {m['res0']} to {res} without an error")
+    if err == "none" and m["res0"].endswith("/none") and res != m["res0"]:
+        if _allowed(res) and not _allowed(m["res0"]):
+            return ("c03-fail-open", f"storage fault turned {m['res0']} into {res}")
+        return ("c03-changed", f"storage fault changed the answer from {m['res0']} to {res} without an error")
+    return True
+
+
+def oracle_c03(cid, impl, m):
+    """With the k-th storage call failing (any error value: generic, cancelled query,
+    timeout, closed connection): an error, or the fault-free answer; never allowed when
+    the fault-free answer is denied; an answer with an error is never allowed. Judged for
+    the sequential and (cres) the real concurrent checkgroup."""
+    if "res" not in m or "res0" not in m:
+        return None
+    for key in ("res", "cres"):
+        if key in impl:
+            v = _c03_one(impl[key], m)
+            if v is not True:
+                return (v[0], ("concurrent checkgroup: " if key == "cres" else "") + v[1])
     return True
 
 
@@ -501,6 +508,79 @@ EXPAND_RULE = ("tuple graphs over 1-3 namespaces (legacy namespaces without rela
 
 
 
+# ---------------------------------------------------------------- opl oracles (C10, C12)
+
+def oracle_c10(cid, impl, m):
+    """C10: (a) documents derived from the grammar, in every spelling, are accepted and denote the
+    generating declarations (relations, types, truth table of every permission);
+    (b) the truth table of a parsed permission equals the TypeScript reading of its source.
+    Known deviations are attributed only if the implementation equals the faithful model."""
+    gen = impl.get("gen")
+    if gen == "grammar":
+        if impl.get("nerr") != "0":
+            if (impl.get("v_arraycomma") == "1" and impl.get("errs", "").startswith("expected-identifier-or-brace@")
+                    and impl.get("nerr") == m.get("nerr") and impl.get("errs") == m.get("errs")):
+                return ("array-generic-trailing-comma", "relation declared as Array<T> followed by ',' is rejected")
+            return ("c10-rejected", f"grammar-derived document rejected: {impl.get('errs')}")
+        if impl.get("decl_ok") != "1":
+            return ("c10-decls", "parsed relations/types differ from the declared ones")
+        if impl.get("sem_ok") != "1":
+            return ("c10-semantics", "a parsed permission does not have the truth table of its TypeScript source")
+        return True
+    if "tt" in impl and "ts" in m:
+        tt, ts = impl["tt"], m["ts"]
+        same_as_model = impl.get("tt") == m.get("tt") and impl.get("nerr") == m.get("nerr")
+        if tt == "err":
+            if m.get("dneg") == "1" and same_as_model:
+                return ("double-negation-rejected", "'!!x' is valid TypeScript but is rejected")
+            return ("c10-rejected", f"expression rejected: {impl.get('errs')}")
+        if tt == ts:
+            return True
+        if m.get("mixed") == "1" and same_as_model and tt == m.get("l2r"):
+            return ("precedence-left-to-right", f"truth table {tt} is the left-to-right reading; TypeScript reads {ts}")
+        return ("c10-semantics", f"truth table {tt} but TypeScript reads {ts}")
+    return None
+
+
+def oracle_c12(cid, impl, m):
+    """C12: no panic (lexer, Parse, ToAPI/ToProto/Error()); errors or namespaces; every error inside the
+    input with start not after end, 1 <= line(start) <= line(end) <= rows+1; REST and gRPC endpoints agree;
+    lexer/parser steps linear (model counters, tied by the correspondence); type-check steps linear
+    (violated: known finding)."""
+    if "toks" in m:                       # lex op
+        return True if impl.get("panic") == "0" else ("c12-panic", "the lexer panicked")
+    if "nerr" not in m:
+        return None
+    if impl.get("panic") != "0":
+        return ("c12-panic", "Parse / ParseError API panicked")
+    if impl.get("endpoints_agree") != "1":
+        return ("c12-endpoints", "REST and gRPC syntax endpoints returned different errors")
+    if impl["nerr"] == "0" and "ns" not in impl:
+        return ("c12-neither", "neither errors nor namespaces")
+    for e in impl.get("errs", "").split(";"):
+        if "@" not in e:
+            continue
+        a, b = e.split("@", 1)[1].split("-")
+        sl, sc = map(int, a.split(":"))
+        el, ec = map(int, b.split(":"))
+        if not (1 <= sl <= el):
+            return ("c12-positions", f"error position {e}: start line after end line or < 1")
+        if "rows" in m and el > int(m["rows"]) + 1:
+            return ("c12-positions", f"error position {e} beyond the input ({m['rows']} lines)")
+    if impl.get("errs") == m.get("errs"):
+        for o in m.get("offs", "").split(";"):
+            if "-" in o:
+                a, b = map(int, o.split("-"))
+                if not (a <= b <= int(m["len"])):
+                    return ("c12-positions", f"error item {o} outside the input of {m['len']} bytes")
+    n = int(m.get("len", "0"))
+    if int(m.get("lsteps", "0")) > 16 * n + 10 or int(m.get("psteps", "0")) > 100 * int(m.get("nitems", "0")) + 90:
+        return ("c12-superlinear", f"lexer/parser steps {m.get('lsteps')}/{m.get('psteps')} exceed the linear bound for {n} bytes")
+    if int(m.get("tcsteps", "0")) > 40 * n + 40 and impl.get("nerr") == m.get("nerr"):
+        return ("typecheck-exponential", f"type check took {m.get('tcsteps')} steps on {n} bytes ({impl.get('nerr')} errors)")
+    return True
+
+
 ENGINE_RULE = ("configs from an OPL-shaped grammar (1-4 namespaces, related relations with plain and SubjectSet types, "
                "permissions over includes/permits/traverse/!/&&/||, rendered to OPL and loaded through the real parser, "
                "or legacy namespaces without relations), 0-54 tuples biased to declared relations, chains, cycles, duplicates; "
@@ -736,4 +816,42 @@ PROPS = {
         "partial": "",
         "assumptions": [],
     },
+}
+
+OPL_RULE = ("stream opl, per 20 cases: 5 documents generated from the OPL grammar (1-4 namespaces, related blocks with "
+            "T[] / (A|B)[] / Array<A|B> / SubjectSet<N,'r'> types, permissions over includes/permits/traverse with "
+            "!/&&/||, rendered over ALL spellings: quoted names, dot/bracket access, optional ': Context' / ': boolean', "
+            "(p)=> / p=>, trailing commas, ,/;/newline separators, //, /* */, /** */ comments, \\t\\r\\v\\f, import header); "
+            "7 byte-level mutations of such documents (truncate, delete, insert invalid/valid UTF-8, insert fragments such as "
+            "/* \" ' !( ((((, random byte, duplicate/cut a slice, swap, 1-200 byte runs), each as a lex op AND a parse op; "
+            "2 token soups around a plausible skeleton; 1 nesting case (depth 1-14 of ( / ! / !( around the limit 10); "
+            "every 100th: a 1k/10k/100k identifier, string, comment or white-space run; 5 expression ops (TS boolean "
+            "expression over <=5 atoms, <=9 operators, minimal and redundant parentheses, mixing || and && in 2/3 of them, "
+            "!! in 1/10) parsed inside a one-permission class: truth table of the parsed AST vs TypeScript; corpus first. "
+            "non-trivial = non-empty input; distinct = distinct protocol lines")
+
+PROPS["C10"] = {
+    "lean_module": "Keto.Props.C10",
+    "theorems": ["Keto.C10_expr_l2r", "Keto.C10_expr_partial", "Keto.C10_access", "Keto.C10_decls", "Keto.C10_separators",
+                 "Keto.C10_precedence_counterexample", "Keto.C10_double_negation_counterexample",
+                 "Keto.C10_array_comma_counterexample",
+                 "Keto.Opl.spec_all", "Keto.Opl.parseAtom_spec", "Keto.Opl.related_decl", "Keto.TS.evalL2R_unmixed"],
+    "streams": [{"name": "opl", "n": {"quick": 4000, "thorough": 20000}, "oracle": oracle_c10, "thorough_seeds": 3}],
+    "rule": OPL_RULE,
+    "partial": "C10_expr_full (denote(parse(render e)) = evalTS e for every e) is not provable: the parser reads each "
+               "parenthesis level strictly left to right (C10_expr_l2r, for ALL e); C10_expr_partial is the full statement "
+               "under the decidable hypothesis `mixed e = false`; C10_precedence_counterexample is the witness a || b && c",
+    "assumptions": ["the text of lexer error items is not modelled (a string literal spelling an error message exactly "
+                    "would compare equal to it in `match`)"],
+}
+PROPS["C12"] = {
+    "lean_module": "Keto.Props.C12",
+    "theorems": ["Keto.C12_total", "Keto.C12_positions", "Keto.C12_lex_linear", "Keto.C12_parse_linear",
+                 "Keto.C12_typecheck_exponential_counterexample", "Keto.Opl.lex_ok", "Keto.Opl.parseItems_ok",
+                 "Keto.Opl.parseItems_steps"],
+    "streams": [{"name": "opl", "n": {"quick": 4000, "thorough": 20000}, "oracle": oracle_c12, "thorough_seeds": 3}],
+    "rule": OPL_RULE,
+    "partial": "linear time holds for lexer and parser (C12_lex_linear, C12_parse_linear) and is violated by the type check "
+               "(C12_typecheck_exponential_counterexample: k^11 steps on 152+21k bytes)",
+    "assumptions": [],
 }
